@@ -2287,6 +2287,15 @@ func (e *Encoder) atCall(fr *frame, cm *ssa.CallCommon, ci ssa.CallInstruction, 
 			skippedSlow++
 			continue
 		}
+		if err := e.w.parseClause(e.contract, cl); err != nil {
+			panic(contractError{err})
+		}
+		if cl.Expr != nil && fr.fn.Pkg != nil && ci.Pos().IsValid() {
+			// the clause applies at the calls where the variables it names are in scope
+			if err := types.CheckExpr(e.w.Fset, fr.fn.Pkg.Pkg, ci.Pos(), cl.Expr, nil); err != nil && strings.Contains(err.Error(), "undefined:") {
+				continue
+			}
+		}
 		env := e.contractEnv(fr, e.contract, nil, e.cur, e.entry)
 		env.callArgs = args
 		env.atInstr = ci
